@@ -470,6 +470,12 @@ def expected_token(text):
         except OverflowError:
             return None
         return {"kind": "FloatLit", "bits": str(bits), "span": span}
+    if len(text) >= 3 and text[0] == "r" and text[1] in "\"'":
+        body = text[2:]
+        k = body.find(text[1])
+        if k < 0:
+            return {"error": True}
+        return {"kind": "StringLit", "chars": [ord(c) for c in body[:k]], "span": span} if k == len(body) - 1 else None
     bytes_lit = len(text) >= 3 and text[0] == "b" and text[1] in "\"'"
     if bytes_lit or (len(text) >= 2 and text[0] in "\"'"):
         q, i, out = (text[1], 2, []) if bytes_lit else (text[0], 1, [])
